@@ -2,6 +2,10 @@ import BqVerif.Proofs.CircHistory
 import BqVerif.Proofs.CircInvB
 import BqVerif.Proofs.CircIter
 import BqVerif.Proofs.CircQudit
+import BqVerif.Proofs.CircViews
+import BqVerif.Proofs.CircKahn2
+import BqVerif.Proofs.CircPopQudit
+import BqVerif.Proofs.CircUnfold
 /-! # C05 — all views of a Circuit stay mutually consistent after every edit
 
 The views (`next/prev/front/rear/first_on/last_on`, counters, iteration) are *functions of the
@@ -78,5 +82,157 @@ example :
       .pop (some (-1, 1)), .append o2, .compress]
     ((Circ.empty [2, 2, 2]).run h).invB = true ∧ ((Circ.empty [2, 2, 2]).run h).numOps = 3 := by
   decide
+
+/-! ## the DAG views are functions of the grid with the documented meaning -/
+
+/-- `next` on a qudit is the first later cycle in which the qudit is occupied (the point returned
+is that cell's operation at its `location[0]`); `prev` is the last earlier one. -/
+theorem C05_nextOn_prevOn_spec (c : Circ) (k q : Nat) (p : Nat × Nat) :
+    (c.nextOn k q = some p ↔ ∃ j x, k < j ∧ c.cell j q = some x ∧ p = (j, x.head) ∧
+      ∀ t, k < t → t < j → c.cell t q = none) ∧
+    (c.prevOn k q = some p ↔ ∃ j x, j < k ∧ c.cell j q = some x ∧ p = (j, x.head) ∧
+      ∀ t, j < t → t < k → c.cell t q = none) :=
+  ⟨nextOn_spec c k q p, prevOn_spec c k q p⟩
+
+/-- **next and prev are mutually inverse on every qudit**: for an operation `o` of cycle `k` and
+an operation `x` of cycle `j` that share qudit `q`, `x` is `o`'s successor on `q` iff `o` is `x`'s
+predecessor on `q`; successors lie in strictly later cycles, predecessors in strictly earlier
+ones (so the derived DAG is acyclic). -/
+theorem C05_next_prev_inverse (c : Circ) (hinv : c.Inv) (k j q : Nat) (o x : Op)
+    (hk : k < c.cycles.length) (hj : j < c.cycles.length)
+    (ho : o ∈ c.cycles[k]) (hx : x ∈ c.cycles[j]) (hqo : q ∈ o.loc) (hqx : q ∈ x.loc) :
+    (c.nextOn k q = some (j, x.head) ↔ c.prevOn j q = some (k, o.head)) ∧
+      (∀ p, c.nextOn k q = some p → k < p.1) ∧ (∀ p, c.prevOn j q = some p → p.1 < j) :=
+  ⟨nextOn_iff_prevOn c k j q o x (cell_of_mem c hinv k q o hk ho hqo)
+      (cell_of_mem c hinv j q x hj hx hqx),
+    fun p h => nextOn_lt c k q p h, fun p h => prevOn_lt c j q p h⟩
+
+-- non-vacuity: X@0 ; CNOT@(0,1) ; H@1 — the CNOT is X's successor on qudit 0
+example :
+    let c : Circ := ⟨[2, 2], [[⟨1, [], [0], [2]⟩], [⟨6, [], [0, 1], [2, 2]⟩], [⟨2, [], [1], [2]⟩]]⟩
+    c.invB = true ∧ c.nextOn 0 0 = some (1, 0) ∧ c.prevOn 1 0 = some (0, 0) ∧
+      c.nextOn 1 1 = some (2, 1) ∧ c.prevOn 2 1 = some (1, 0) := by decide
+
+/-- **front / rear**: `front` lists, each once, exactly the points `(cycle, location[0])` of the
+operations without predecessor, `rear` those without successor; and an operation has no
+predecessor (successor) iff no earlier (later) cycle holds anything on one of its qudits. -/
+theorem C05_front_rear (c : Circ) :
+    (∀ p, p ∈ c.front ↔ ∃ k o, (∃ h : k < c.cycles.length, o ∈ c.cycles[k]) ∧
+      c.prev k o = [] ∧ p = (k, o.head)) ∧ c.front.Nodup ∧
+    (∀ p, p ∈ c.rear ↔ ∃ k o, (∃ h : k < c.cycles.length, o ∈ c.cycles[k]) ∧
+      c.next k o = [] ∧ p = (k, o.head)) ∧ c.rear.Nodup ∧
+    (∀ k o, c.prev k o = [] ↔ ∀ q ∈ o.loc, ∀ t, t < k → c.cell t q = none) ∧
+    (∀ k o, c.next k o = [] ↔ ∀ q ∈ o.loc, ∀ t, k < t → c.cell t q = none) := by
+  refine ⟨fun p => ?_, front_nodup c, fun p => ?_, rear_nodup c, prev_eq_nil c, next_eq_nil c⟩
+  · rw [mem_front]; simp only [mem_iterCyc]
+  · rw [mem_rear]; simp only [mem_iterCyc]
+
+/-- **first / last point of a qudit** are the two ends of the qudit's timeline (with the cycle
+index of every entry, `timelineIdx`, whose operations are the timeline under `Inv`). -/
+theorem C05_first_last_point (c : Circ) (hinv : c.Inv) (q : Nat) :
+    c.firstPoint q = (c.timelineIdx q).head?.map (fun x => (x.1, x.2.head)) ∧
+    c.lastPointOn q = (c.timelineIdx q).getLast?.map (fun x => (x.1, x.2.head)) ∧
+    (c.timelineIdx q).map Prod.snd = c.timeline q :=
+  ⟨firstPoint_eq c q, lastPointOn_eq c q, timelineIdx_ops c hinv q⟩
+
+/-- **The DAG iterator yields the row-major order.**  `iterKahn` transcribes
+`CircuitDagIterator`: Kahn's algorithm over the derived `next`/`prev` edges with the frontier kept
+as a heap of points and a table of per-node counts of already-emitted predecessors
+(`prev_binned_counts`); `iterCyc` is the order `(cycle, location[0])`.  Under the invariant the two
+coincide for EVERY circuit — so "iteration" is one well-defined order, and the differential's
+`kahn=same` flag is a theorem rather than an observation.  (Proof: the abstract loop on any
+finite DAG with upward edges and a sorted frontier emits the nodes in increasing order,
+`aLoop_correct`; the grid's points are strictly sorted under `Inv`, `next`/`prev` are mutually
+inverse, and `prev`'s length counts the predecessors.) -/
+theorem C05_iter_kahn_eq_rowmajor (c : Circ) (hinv : c.Inv) : c.iterKahn = c.iterCyc :=
+  iterKahn_eq_iterCyc c hinv
+
+/-- The abstract lemma behind it, for any DAG on points: nodes `pts` strictly sorted, successor
+lists duplicate-free, inside `pts` and strictly larger, `total` = number of predecessors; started
+from the sorted list of the nodes without predecessor with enough fuel, the counting loop with a
+sorted frontier outputs exactly `pts`. -/
+theorem C05_kahn_abstract (valid : Pt → Bool) (succ : Pt → List Pt) (total : Pt → Nat)
+    (pts front : List Pt) (fuel : Nat)
+    (hsort : pts.Pairwise ptLt) (hvalid : ∀ p ∈ pts, valid p = true)
+    (hnd : ∀ p ∈ pts, (succ p).Nodup)
+    (hsucc : ∀ p ∈ pts, ∀ x ∈ succ p, x ∈ pts ∧ ptLt p x)
+    (htot : ∀ x ∈ pts, total x = pts.countP (fun r => (succ r).contains x))
+    (hfn : front.Nodup) (hfm : ∀ x, x ∈ front ↔ x ∈ pts ∧ total x = 0)
+    (hfuel : pts.length ≤ fuel) :
+    aLoop valid succ total fuel ⟨front.foldr insertPt [], []⟩ = pts :=
+  aLoop_from_front valid succ total pts front fuel hsort hvalid hnd hsucc htot hfn hfm hfuel
+
+-- non-vacuity: a 3-qudit circuit where row-major and a naive FIFO Kahn order differ; and the
+-- hypothesis `Inv` is needed (two ops sharing `location[0]` in one cycle break the equality)
+example :
+    let c : Circ := ⟨[2, 2, 2], [[⟨1, [], [2], [2]⟩, ⟨1, [], [0], [2]⟩],
+      [⟨6, [], [1, 2], [2, 2]⟩, ⟨2, [], [0], [2]⟩], [⟨6, [], [0, 1], [2, 2]⟩]]⟩
+    c.invB = true ∧ c.iterKahn = c.iterCyc ∧ c.iterCyc.length = 5 := by decide
+example :
+    let c : Circ := ⟨[2], [[⟨1, [], [0], [2]⟩, ⟨2, [], [0], [2]⟩]]⟩
+    c.invB = false ∧ c.iterKahn ≠ c.iterCyc := by decide
+
+/-- **pop_qudit keeps the invariant**, for any index (incl. negative / out of range, where it
+raises and leaves the circuit alone): the `batch_pop` of all points on the qudit leaves no
+operation on it (`batchPop_ptsQ_clears`: the removal fold walks the found operations from the last
+cycle to the first, so no index is shifted before it is used), and the relabelling `q ↦ q − 1`
+above the popped qudit is injective on the qudits still in use. -/
+theorem C05_inv_pop_qudit (c : Circ) (qi : Int) (hinv : c.Inv) : (c.popQudit qi).1.Inv :=
+  popQudit_inv c qi hinv
+
+/-- the intermediate fact: after `pop_qudit`'s batch pop nothing sits on the qudit -/
+theorem C05_pop_qudit_clears (c : Circ) (hinv : c.Inv) (k : Nat) (hk : k < c.numQudits)
+    (hne : (ptsQ c k).isEmpty = false) :
+    ∀ cy ∈ (c.batchPop (ptsQ c k)).1.cycles, occ cy k = false :=
+  batchPop_ptsQ_clears c hinv k hk hne
+
+-- non-vacuity: popping qudit 1 of X@0 ; CNOT@(0,1) ; H@1 ; CNOT@(2,1)
+example :
+    let c : Circ := ⟨[2, 2, 2], [[⟨1, [], [0], [2]⟩], [⟨6, [], [0, 1], [2, 2]⟩], [⟨2, [], [1], [2]⟩],
+      [⟨6, [], [2, 1], [2, 2]⟩]]⟩
+    c.invB = true ∧ (ptsQ c 1).isEmpty = false ∧
+      (c.popQudit (-2)).1 = ⟨[2, 2], [[⟨1, [], [0], [2]⟩]]⟩ := by decide
+
+/-- **unfold keeps the invariant** when the block bodies of the table are well-formed (their
+operations have non-empty duplicate-free locations inside the body, radix lists of matching
+length — what constructing a `CircuitGate` guarantees), for any point (a point that is out of
+range, idle, or not a block makes the call raise and leaves the circuit alone). -/
+theorem C05_inv_unfold (c : Circ) (b : Blocks) (hb : b.Ok) (p : Int × Int) (hinv : c.Inv) :
+    (c.unfold b p).1.Inv ∧ (c.unfold b p).1.radixes = c.radixes :=
+  ⟨unfold_inv c b hb p hinv, unfold_radixes c b p⟩
+
+/-- **unfold_all keeps the invariant**, for any number of rebuild rounds. -/
+theorem C05_inv_unfold_all (c : Circ) (b : Blocks) (hb : b.Ok) (fuel : Nat) (hinv : c.Inv) :
+    (c.unfoldAll b fuel).Inv ∧ (c.unfoldAll b fuel).radixes = c.radixes :=
+  unfoldAll_inv c b hb fuel hinv
+
+/-- **Every history, blocks included**: the call language extended with `unfold(point)` and
+`unfold_all()` (`CallB`; the blocks table is a parameter): after ANY finite sequence of these
+calls from the empty circuit the invariant holds and the radixes are untouched. -/
+theorem C05_inv_history_blocks (b : Blocks) (hb : b.Ok) (radixes : List Nat) (h : List CallB)
+    (hok : ∀ call ∈ h, call.Ok radixes) :
+    ((Circ.empty radixes).runB b h).Inv ∧ ((Circ.empty radixes).runB b h).radixes = radixes :=
+  runB_inv b hb (Circ.empty radixes) h
+    ⟨by simp [Circ.empty], by simp [Circ.empty], by simp [Circ.empty]⟩ hok
+
+-- non-vacuity: a well-formed table, a history with an unfold that really unfolds
+example :
+    let body : Circ := ⟨[2, 2], [[⟨1, [], [0], [2]⟩], [⟨6, [], [0, 1], [2, 2]⟩]]⟩
+    let b : Blocks := [(1000, body)]
+    let blk : Op := ⟨1000, [], [2, 0], [2, 2]⟩
+    let h : List CallB := [.base (.append ⟨2, [], [1], [2]⟩), .base (.append blk), .unfold (0, 2)]
+    body.invB = true ∧ ((Circ.empty [2, 2, 2]).runB b h).invB = true ∧
+      ((Circ.empty [2, 2, 2]).runB b h).numOps = 3 := by decide
+example : Blocks.Ok [(1000, (⟨[2, 2], [[⟨1, [], [0], [2]⟩], [⟨6, [], [0, 1], [2, 2]⟩]]⟩ : Circ))] := by
+  intro gid body h
+  simp only [Blocks.body?, List.find?_cons, List.find?_nil] at h
+  split at h
+  · simp only [Option.map_some, Option.some.injEq] at h
+    subst h
+    intro o ho
+    simp only [Circ.ops, List.flatten_cons, List.flatten_nil, List.cons_append, List.nil_append,
+      List.mem_cons, List.not_mem_nil, or_false] at ho
+    rcases ho with rfl | rfl <;> simp [Circ.numQudits]
+  · simp at h
 
 end BqVerif.C05
